@@ -43,6 +43,12 @@ CHECKS = {
     'C08': ('explicit-state enumeration of the Glencoe fragment, deviation-bounded names, constraint trees of depth<=2 incl. XOR/EXCLUDES; write/read cycles on the real writer and reader',
             'Every state up to the bound round-trips through GlencoeWriter/Reader; names, order-insensitive tree, constraint count, name-matched equivalence and generation fix-points are checked.',
             'Order-insensitive comparison because the writer sorts by name.', '3 C08'),
+    'C01': ('explicit-state enumeration of the structure space incl. [a..*], deviation-bounded decorations (names of every admitted class, abstract, types, feature cardinalities, every attribute value kind) and constraint trees (logical depth<=2, arithmetic/aggregate alphabet); write/read cycles through the real UVL writer and ANTLR reader compared with the shadow',
+            'Every state up to the bound is written as UVL and parsed back; the read-back model is compared field by field with the source shadow (type-strict attribute values, constraints by truth table / structure), and the following generations must be fix-points of model and text.',
+            'UVL parsing costs 11 ms, so bounds are one size smaller than for the other formats; names by class representatives; [n..*] may come back as -1 or as the number of children.', '3 C01'),
+    'C06': ('explicit-state enumeration of the AFM fragment, deviation-bounded WORD names and attribute declarations (ranges, enumerations, default/null), all constraint trees of depth<=2 without XOR plus depth-3 spines; write/read cycles through the real AFM writer and ANTLR reader',
+            'Every state up to the bound round-trips through AFMWriter/AFMReader; names, tree, attributes (ranges as ints) and one-to-one constraint equivalence (which is what catches lost parentheses) and generation fix-points are checked.',
+            'Attribute elements/default/null are compared as token text, the representation the AFM reader defines.', '3 C06'),
 }
 
 REASON_TODO = 'check not built yet in this session; planned in DESIGN.md section 3 (model checking applies)'
